@@ -466,6 +466,53 @@ impl<'a> Gen<'a> {
             }
             self.world.files.push(f);
         }
+        if cfg.p_ai > 0 && self.rng.chance(1, 5) {
+            self.add_ai_twin();
+            if self.rng.chance(1, 4) {
+                self.add_ai_twin();
+            }
+        }
+    }
+
+    /// Writes an existing check-ai prompt on one more block ("twin"): same condition (hence same
+    /// token and reply), usually the same content. Every twin is still one request and, when the
+    /// reply is not OK, one diagnostic of its own.
+    pub fn add_ai_twin(&mut self) {
+        let mut donors: Vec<(usize, BlockSpec)> = Vec::new();
+        for (fi, f) in self.world.files.iter().enumerate() {
+            for b in &f.blocks {
+                if b.has("check-ai") && b.children.is_empty() && !b.has("check-lua") {
+                    donors.push((fi, b.clone()));
+                }
+            }
+        }
+        if donors.is_empty() {
+            return;
+        }
+        let (fi, donor) = donors[self.rng.below(donors.len())].clone();
+        let mut twin = BlockSpec::default();
+        for (k, v) in &donor.attrs {
+            if k == "check-ai" || k == "check-ai-pattern" {
+                twin.attrs.push((k.clone(), v.clone()));
+            }
+        }
+        if self.rng.chance(1, 2) {
+            let s = *self.rng.pick(&["error", "warning", "info", "hint", "Warning"]);
+            twin.attrs.push(("severity".into(), s.into()));
+        }
+        twin.lines = if self.rng.chance(3, 4) {
+            donor.lines.clone()
+        } else {
+            vec!["twin=1".to_string()]
+        };
+        let n = self.world.files.len();
+        let target = if self.rng.chance(1, 2) { fi } else { self.rng.below(n) };
+        let same_lang = wrapper_free(&self.world.files[target].path) == wrapper_free(&self.world.files[fi].path)
+            && (self.world.files[target].path.ends_with(".py") == self.world.files[fi].path.ends_with(".py")
+                || twin.lines.iter().all(|l| !l.starts_with(' ')));
+        let target = if same_lang { target } else { fi };
+        let pos = self.rng.below(self.world.files[target].blocks.len() + 1);
+        self.world.files[target].blocks.insert(pos, twin);
     }
 
     /// Adds `affects` references between (named) blocks; only meaningful in diff mode.
